@@ -291,6 +291,11 @@ def list_expr(
             # can `x` be ignored ?
             if use_dom:
                 dom = fol.vars[x]['dom']
+                if a > dom[1] or b < dom[0]:
+                    # outside the type hints,
+                    # so outside the care set
+                    w = None
+                    break
                 a, b = tyh._clip_subrange((a, b), dom, x)
             if a is None and b is None:
                 continue
@@ -303,6 +308,8 @@ def list_expr(
                 s = r'({x} \in {a} .. {b})'
             s = s.format(x=x, a=a, b=b)
             w.append(s)
+        if w is None:
+            continue
         # conjoin as one triplet per line
         lines = w
         width = 3
